@@ -258,7 +258,7 @@ def run(ctx):
     # ---- E2: into the child
     sel = pick_cases(ctx, frames, seqs)
     by_id = {x['id']: x for x in sel}
-    summ, events = run_driver(ctx, drv, 'main', sel, noise_per_batch=100, noise_batches=ctx.pick(4, 40), restart_every=40)
+    summ, events = run_driver(ctx, drv, 'main', sel, noise_per_batch=100, noise_batches=ctx.pick(4, 100), restart_every=40)
     ctx.log('driver: %s' % {k: v for k, v in summ.items() if k != 'failures'})
     ctx.extra.update(cases_run=summ['cases'], noise_frames=summ['noise_frames'], probe_rounds=summ['probes'], children=summ['children'],
                      late_observations=summ['late'], unattributed_emissions=summ['strays'], repro_runs=summ['repro_runs'])
